@@ -115,6 +115,7 @@ pub fn c03(cx: &RunCtx) {
     cx.assume("the reference recogniser (shunting-yard, written from the statements) is the definition of well-formedness; inputs it marks unspecified (literal directly followed by a literal, bare-i adjacency) carry no demand");
     for_each_dom!(c03_dom, cx);
     crate::fam::per_name_all(cx, &[Kind::MalformedOk, Kind::WellFormedErr, Kind::PrefixOk]);
+    crate::fam::pumping_all(cx, &[Kind::MalformedOk, Kind::WellFormedErr, Kind::PrefixOk]);
 }
 
 // ---------------------------------------------------------------- C04
@@ -126,6 +127,8 @@ fn c04_dom<D: Dom>(cx: &RunCtx) {
 pub fn c04(cx: &RunCtx) {
     cx.assume("operands are distinct small primes (and 0.5) so that different groupings give different values; the reference tree is evaluated with the same arithmetic primitives as the subject, so only grouping can differ");
     for_each_dom!(c04_dom, cx);
+    // long inputs: the pumped families (nesting and chains up to 256 characters) against the reference tree
+    crate::fam::pumping_all(cx, &[Kind::Value]);
 }
 
 pub fn dispatch(cx: &RunCtx) -> bool {
